@@ -19,6 +19,7 @@ fn inj_cfg(t: Tier) -> GenCfg {
   let mut c = bu_cfg(t);
   c.bottom_up_weight = 3;
   c.max_steps = match t { Tier::Quick => 8, Tier::Thorough => 12 };
+  c.task_panic_share = 2;
   c
 }
 
